@@ -177,6 +177,8 @@ def make_cell(kind, attrs):
         if a != "_string_id":
             setattr(cell, a, attrs.get(a))
     cell._style = None
+    if "__flags" in attrs:   # the flags word of the record the cell was decoded from (a loaded cell carries it)
+        cell._flags = attrs["__flags"]
     return cell
 
 
@@ -233,6 +235,15 @@ def search_encoder(job):
             if r["violated"]:
                 r["job"] = {"custom": "replay_encoder", "kind": kind, "inputs": {"in" + a: v for a, v in attrs.items()}}
                 return r
+    # cells that were decoded from a record carrying every flag bit, uninterpreted fields included: the new record is built from the
+    # attributes alone
+    for stale in (0x1FFFFF, 0x180980, 0x80):
+        attrs = {a: (7 + i if i % 2 else None) for i, a in enumerate(names)}
+        attrs["__flags"] = stale
+        r = check_encode(kind, attrs)
+        if r["violated"]:
+            r["detail"] += f" (cell decoded earlier from a record with flags {stale:#x})"
+            return r
     epoch = datetime(2001, 1, 1)
     values = {"date": [datetime(2022, 5, 30, 8, 22, 11, 500000), datetime(2001, 1, 1, 0, 0, 0, 1), datetime(1999, 12, 31, 23, 59, 59, 999999),
                        datetime(2020, 2, 29, 12, 0, 0), datetime(1970, 1, 1), datetime(2024, 7, 1, 1, 2, 3, 250000, tzinfo=timezone(timedelta(hours=5, minutes=30)))],
